@@ -6,7 +6,8 @@
 -/
 import Flumine.SimLoop
 import Flumine.Lemmas.OrderLemmas
-import Flumine.Props.C15
+import Flumine.Lemmas.WorldLemmas
+import Mathlib.Tactic.Linarith
 namespace Flumine.C03
 open Flumine Flumine.World Flumine.OL Flumine.SimOrder
 
